@@ -23,7 +23,8 @@ CHECKS = {
     "C02": ("Hostile byte strings (single-byte defects at every leading position, splices, truncations, random strings) read "
             "through BufferReader/PedanticBufferReader/BoundedReader in an ASan+UBSan build and a plain build with an "
             "allocation counter; TrCodec.tla C02R accepts an event only if no request left the source, allocation <= "
-            "4096+256*len, the destination could be read into again; sanitizer reports are events no action accepts.", "6 C02"),
+            "4096+256*len, what the read left in the destination is a value of its type (Inspectable) and the destination could be "
+            "read into again; sanitizer reports are events no action accepts.", "6 C02"),
     "C03": ("Every W event of every pool type is compared byte for byte with Enc of Wire.tla (written from docs/format.md); "
             "8-bit integers exhaustive (16-bit in the thorough tier); W3 (minimal class) and W4 (size estimate) model-checked.", "6 C03"),
     "C04": ("Accept/reject, decoded value, consumed length and (for single-defect inputs) error category of every hostile input "
@@ -67,7 +68,7 @@ CHECKS = {
             "its step refinement to IO.tla (MC_Confine), and Apalache proves its invariant inductive for the 64-bit size_t "
             "(every limit, index and request size in 0..2^64-1).", "6 C16, 13.2"),
     "C17": ("The same TLC-generated and random call sequences are executed directly on every library reader and writer "
-            "(and Bounded over each) with element widths 1/2/4/8 and a ladder of request sizes (31..4097, 64 Ki thorough) with "
+            "(and Bounded over each; every third bounded wrapper copy-constructed in mid-sequence) with element widths 1/2/4/8 and a ladder of request sizes (31..4097, 64 Ki thorough) with "
             "sources / capacities that just suffice or are one byte short; TrIO.tla requires each call to be the step of the "
             "IO.tla contract automaton up to and including the first failing call (FdReader also over a bursty pipe, FdReader / "
             "FdWriter over descriptors whose read()/write() fail with EINTR and transfer short counts; "
@@ -134,7 +135,7 @@ CHECKS = {
             "caller and dispatcher also run as two threads over real pipes (FdWriter/FdReader).", "6 C14"),
     "C19": ("Threads.tla: per-thread, per-(T,Slot) storage; MC_Threads explores all interleavings of 2-3 threads running "
             "ThreadLocal programs (Isolation, ScheduleIndependent) and emits the schedules, which real std::threads replay in "
-            "lock step under injective slot renamings over nine slots (int / long under every slot naming, std::string, "
+            "lock step (initial values handed over as rvalue, const lvalue and non-const lvalue) under injective slot renamings over nine slots (int / long under every slot naming, std::string, "
             "std::vector, std::unique_ptr values); free-running 4-16 threads mix ThreadLocal operations on shared slot types with serializer round "
             "trips (12 encodings, three Serializer forms), RPC connections and reader/writer call sequences with thread-specific "
             "padding values on their own objects, caller/dispatcher thread pairs over real pipes, and descriptor-ownership "
